@@ -19,16 +19,18 @@ PROP = dict(
                dict(fn=MS + "get_events", rt_skip=True),
                dict(fn=MS + "get_metadata", rt_skip=True)],
     timeout_s=20,
-    extra=[lambda run: run.storage_mode("c01", what="value fidelity (1970-2100, any offset, durations to 30 days, nested unicode JSON) and ownership (mutating passed-in / handed-out objects) on the real back ends")],
+    extra=[lambda run: run.storage_mode("c01", what="value fidelity (1970-2100, any offset, durations to 30 days, nested unicode JSON) and ownership (mutating passed-in / handed-out objects) on the real back ends"),
+           lambda run: run.storage_mode("c01span", runs=(1 if run.tier == "quick" else 6), what="1500 events per back end spanning 2**49 / 2**50 / 2**51 us after the epoch (1987, 2005, 2041: the spacing of binary64 microsecond values doubles there), inserted in bulk and read back: instant and duration exact")],
     technique="run-time check of the real back ends (bounded); with the sqlite methods proved against contracts over the table state (SQL text parsed from the source)",
-    explanation="deductive (sqlite): insert_one / insert_many give every event without an id a row id never used before (old high-water mark + 1, consecutive for a bulk insert) in the addressed bucket, holding exactly the encoding (float microseconds of start and end, json.dumps of the data) of that event; get_event / get_events / _rows_to_events return fresh Event objects that are the decoding of exactly those rows. An insert followed by a lookup (contracts.sqlite.store_roundtrip, a lemma over the two contracts) returns a fresh event with the id assigned, equal data (A-JSON) and the SAME INSTANT for every whole-millisecond instant between 1970 and 2100: lemma F3 (the float encoding timestamp()*1000000 followed by /1000000 and fromtimestamp is lossless), proved in every run by binade-split exact-rounding reasoning over 84 cells with a negative control and a CPython cross-check. That the DURATION survives (the difference of two decoded floats) is NOT proved - the bounded run-time check below covers it. deductive (memory): insert_one stores an object of the store's own (fresh, fresh data dict, equal in value to the caller's event, under an id no stored event has) and hands back a third fresh object; replace / replace_last store fresh deep copies; get_event / get_events / get_metadata hand out fresh copies - so no caller ever holds a reference into the store (relative to A-COPY for copy.deepcopy). " 
+    explanation="deductive (sqlite): insert_one / insert_many give every event without an id a row id never used before (old high-water mark + 1, consecutive for a bulk insert) in the addressed bucket, holding exactly the encoding (float microseconds of start and end, json.dumps of the data) of that event; get_event / get_events / _rows_to_events return fresh Event objects that are the decoding of exactly those rows. An insert followed by a lookup (contracts.sqlite.store_roundtrip, a lemma over the two contracts) returns a fresh event with the id assigned, equal data (A-JSON) the SAME INSTANT and the SAME DURATION for every event that starts between 1970 and 2100 and lasts 0 to 31 days: lemma F3 (the float encoding timestamp()*1000000 followed by /1000000 and fromtimestamp is lossless for every whole-microsecond instant), proved in every run by binade-split exact-rounding reasoning (103 cells, powers of two evaluated directly) with a negative control and a CPython cross-check, applied to the start and to the end instant. (The analysis behind the lemma is what exposed the defect repaired in the commit recorded in known_findings.json: the end used to be encoded as a sum of two rounded floats.) deductive (memory): insert_one stores an object of the store's own (fresh, fresh data dict, equal in value to the caller's event, under an id no stored event has) and hands back a third fresh object; replace / replace_last store fresh deep copies; get_event / get_events / get_metadata hand out fresh copies - so no caller ever holds a reference into the store (relative to A-COPY for copy.deepcopy). " 
                 "bounded: random events (instants 1970-2100 at any UTC offset, durations 0..30 days at microsecond granularity, nested unicode JSON data) are inserted singly and in bulk into memory, sqlite and peewee; id unique in the bucket and returned by listing and lookup; instant equal to the millisecond, duration to the microsecond, data equal; then the caller's event, events handed out by reads and metadata dicts are mutated and later reads must not change.",
 )
 
 FM = "/repo/aw_datastore/storages/memory.py"
 MUTANTS = [
+    ("/repo/aw_datastore/storages/sqlite.py", "        endtime = (event.timestamp + event.duration).timestamp() * 1000000\n        datastr = json.dumps(event.data)\n        c.execute(", "        endtime = starttime + (event.duration.total_seconds() * 1000000)\n        datastr = json.dumps(event.data)\n        c.execute(", True),   # the end as a sum of two rounded floats again
     ("/repo/aw_datastore/storages/sqlite.py", "        starttime = datetime.fromtimestamp(row[1] / 1000000, timezone.utc)", "        starttime = datetime.fromtimestamp(row[1] / 1000000.5, timezone.utc)", True),   # decoding with another divisor
-    ("/repo/aw_datastore/storages/sqlite.py", "        starttime = event.timestamp.timestamp() * 1000000\n        endtime = starttime + (event.duration.total_seconds() * 1000000)\n        datastr = json.dumps(event.data)\n        c.execute(", "        starttime = event.timestamp.timestamp() * 1000000 + 0.5\n        endtime = starttime + (event.duration.total_seconds() * 1000000)\n        datastr = json.dumps(event.data)\n        c.execute(", True),   # half a microsecond added on insert
+    ("/repo/aw_datastore/storages/sqlite.py", "        c = self.conn.cursor()\n        starttime = event.timestamp.timestamp() * 1000000\n", "        c = self.conn.cursor()\n        starttime = event.timestamp.timestamp() * 1000000 + 0.5\n", True),   # half a microsecond added on insert
     (FM, '            # Hand out a copy: the stored event must not be reachable through the returned one\n            event = copy.deepcopy(event)\n', '', True),   # insert_one hands out the stored event (the defect fixed in 9ec40ff)
     (FM, '            event = copy.deepcopy(event)\n            if self.db[bucket]:', '            event = copy.copy(event)\n            if self.db[bucket]:', True),   # shallow copy: the data dict is shared with the caller
     (FM, '        event = self._get_event(bucket_id, event_id)\n        return copy.deepcopy(event)', '        event = self._get_event(bucket_id, event_id)\n        return event', True),   # get_event hands out the stored event
